@@ -102,10 +102,25 @@ def run(ctx, factor):
     for _ in range(ctx.budget(40, 1500) * factor):
         seq = [g.r.randrange(len(ops)) for _ in range(g.int(2, maxlen))]
         ctx.driver.call({"op": "reset"})
+        # in half of the histories every operation reads its rule (and listing) from the SAME path, rewritten each time:
+        # a result remembered per path would then show up as a dependence on the history
+        same_paths = g.chance(0.5)
         for pos, i in enumerate(seq):
             o = ops[i]
+            kw = {}
+            if same_paths:
+                import os
+                rp = os.path.join(ctx.scratch.dir, "same_rule.yaml")
+                with open(rp, "w") as fh:
+                    fh.write(impl.dump_yaml(o["doc"]))
+                kw["rule_path"] = rp
+                if o.get("text") is not None:
+                    ip = os.path.join(ctx.scratch.dir, "same_input.s")
+                    with open(ip, "w") as fh:
+                        fh.write(o["text"])
+                    kw["input_path"] = ip
             got = norm(impl.run_op(ctx.scratch, o["doc"], o.get("text"), mode=o["mode"], addr_only=o["addr_only"], ret=o["ret"],
-                                   macro_docs=o.get("macro_docs", ()), binary_path=o.get("binary_path")))
+                                   macro_docs=o.get("macro_docs", ()), binary_path=o.get("binary_path"), **kw))
             m = model_run(ctx, o, obj_texts)
             case = {"history": [ops[j] for j in seq[:pos]], "operation": o}
             if got != ref[i]:
